@@ -96,3 +96,11 @@ pub fn evidence_base(prop: &str, tier: &str, seed: i64, level: &str) -> Value {
         "violations": 0,
     })
 }
+
+/// The known findings file, loaded once per process.
+pub fn known_list() -> std::rc::Rc<Vec<Known>> {
+    thread_local! {
+        static KNOWN: std::rc::Rc<Vec<Known>> = std::rc::Rc::new(load_known("/verif/known_findings.txt"));
+    }
+    KNOWN.with(|k| k.clone())
+}
